@@ -22,6 +22,8 @@ func init() {
 			"Decides these necessary conditions; does not decide absence of all panics or CPU time.",
 		Run: runC05,
 		Mutants: []Mutant{
+			{Name: "inflater-not-closed", File: "internal/stream/stream_processor_read.go", Rule: "R-C05-2",
+				Old: "\tdefer gzipReader.Close()\n", New: ""},
 			{Name: "body-cap-removed", File: "internal/stream/stream_processor_read.go", Rule: "R-C05-1",
 				Old: "if bodySize > constants.MaxPacketBodySize {", New: "if bodySize > constants.MaxPacketBodySize && false {"},
 			{Name: "inflate-unlimited", File: "internal/stream/stream_processor_read.go", Rule: "R-C05-2",
